@@ -336,6 +336,7 @@ fn require_kind(expr: &Value) -> Option<ReqKind> {
 pub fn top_statements(block: &Value) -> Vec<TopStmt> {
     let mut out = Vec::new();
     let Some(stmts) = block.get("stmts").and_then(|s| s.as_array()) else { return out };
+    let mut region = false;
     for pair in stmts {
         let stmt = &pair[0];
         let mut t = TopStmt { kind: None, name: String::new(), start_line: 0, end_line: 0, ignored: false, span: span(stmt).unwrap_or((0, 0)) };
@@ -353,7 +354,15 @@ pub fn top_statements(block: &Value) -> Vec<TopStmt> {
             }
         }
         t.end_line = last_line(stmt).max(pair.get(1).map_or(0, last_line));
-        t.ignored = leading_comment_lines(stmt).iter().any(|l| l == "stylua: ignore");
+        let lines = leading_comment_lines(stmt);
+        for l in &lines {
+            if l == "stylua: ignore start" {
+                region = true;
+            } else if l == "stylua: ignore end" {
+                region = false;
+            }
+        }
+        t.ignored = region || lines.iter().any(|l| l == "stylua: ignore");
         out.push(t);
     }
     out
